@@ -86,12 +86,14 @@ def run_one(job):
     """One deck with two materials (cells 1 and 2); returns one trace per material."""
     tid, (rec1, toks1, rho1), (rec2, toks2, rho2) = job
     one_card = toks2 is None       # ONE material card used by two cells, at a mass density and at an atom density
+    ind1 = ' ' * (tid % 5)         # a card name may start anywhere in columns 1-5
+    ind2 = ' ' * ((tid // 5) % 5)
     if one_card:
-        deck = ('composition test\n1 1 %s -1 imp:n=1\n2 1 %s 1 -2 imp:n=1\n3 0 2 imp:n=0\n\n1 so 5\n2 so 8\n\nm1 %s\n'
-                % (rho1, rho2, ' '.join(toks1)))
+        deck = ('composition test\n1 1 %s -1 imp:n=1\n2 1 %s 1 -2 imp:n=1\n3 0 2 imp:n=0\n\n1 so 5\n2 so 8\n\n%sm1 %s\n'
+                % (rho1, rho2, ind1, ' '.join(toks1)))
     else:
-        deck = ('composition test\n1 1 %s -1 imp:n=1\n2 2 %s 1 -2 imp:n=1\n3 0 2 imp:n=0\n\n1 so 5\n2 so 8\n\nm1 %s\nm2 %s\n'
-                % (rho1, rho2, ' '.join(toks1), ' '.join(toks2)))
+        deck = ('composition test\n1 1 %s -1 imp:n=1\n2 2 %s 1 -2 imp:n=1\n3 0 2 imp:n=0\n\n1 so 5\n2 so 8\n\n%sm1 %s\n%sm2 %s\n'
+                % (rho1, rho2, ind1, ' '.join(toks1), ind2, ' '.join(toks2)))
     res = conv.convert(deck)
     outs = []
     for k, rec in ((1, rec1), (2, rec2)):
